@@ -250,7 +250,7 @@ theorem readable_raises_example (J : Codec) (h : J.loads ['5'] = .raises) :
 
 /-- the message text begins with `<Class>.<top>[suffix]: ` -/
 def BeginsWithPath (cls : Text) (t : Text) (n : String) : Prop :=
-  ∃ (suf : Suffix) (rest : Text), t = withClass (some cls) (n.toList ++ suf.text) ++ ':' :: ' ' :: rest
+  ∃ (suf : SufPath) (rest : Text), t = withClass (some cls) (n.toList ++ suf.text) ++ ':' :: ' ' :: rest
 
 /-- `ErrorInfo.field` names the top-level field `n` -/
 def InfoNames (cls : Text) (i : Info) (n : String) : Prop :=
@@ -821,5 +821,757 @@ theorem set_build_site_examples :
     p1Site exOracles [none] "t" (.setOf false (.integer {}) {}) (.list [.int 1, .list [.int 1]]) =
       some ⟨"t", .named, some "t_1".toList, .valueErr⟩ := by
   decide
+
+/-! ### deserialization at any nesting depth (Sem/Errors.lean `dHead`, `p1SiteD` over `deser` of
+    Sem/Deser.lean): the wrapper guarantee of every container kind, for every declaration -/
+
+theorem c18_startsWith_append (a b : Text) : startsWith a (a ++ b) = true := by
+  unfold startsWith; exact dropPre_isSome_append a b
+
+theorem c18_startsWith_self (a : Text) : startsWith a a = true := by
+  have := c18_startsWith_append a []
+  simpa using this
+
+theorem c18_startsWith_trans (a b t : Text) (h : startsWith (a ++ b) t = true) : startsWith a t = true := by
+  unfold startsWith at h ⊢
+  cases hd : dropPre (a ++ b) t with
+  | none => simp [hd] at h
+  | some r =>
+    have := dropPre_eq _ _ _ hd
+    rw [this, List.append_assoc]
+    exact dropPre_isSome_append _ _
+
+theorem dWrapIdx_starts (name : Text) (i : Nat) (inner : Text) :
+    startsWith name (dWrapIdx name i inner) = true := by
+  unfold dWrapIdx
+  simp only []
+  split
+  · rename_i h; exact c18_startsWith_trans _ _ _ h
+  · exact c18_startsWith_append _ _
+
+theorem dWrapMap_starts (name inner : Text) : startsWith name (dWrapMap name inner) = true := by
+  unfold dWrapMap
+  split
+  · rename_i h
+    simp only [Bool.or_eq_true] at h
+    cases h with
+    | inl h => exact c18_startsWith_trans _ _ _ h
+    | inr h => exact c18_startsWith_trans _ _ _ h
+  · exact c18_startsWith_self _
+
+theorem dHeadEntries_starts (okK okV : PyVal → Bool) (hK hV : Text → PyVal → Text) (name : Text)
+    (kvs : List (PyVal × PyVal)) (h : Text) (hh : dHeadEntries okK okV hK hV name kvs = some h) :
+    startsWith name h = true := by
+  induction kvs with
+  | nil => simp [dHeadEntries] at hh
+  | cons kv rest ih =>
+    obtain ⟨k, x⟩ := kv
+    simp only [dHeadEntries] at hh
+    split at hh
+    · simp only [Option.some.injEq] at hh; subst hh; exact dWrapMap_starts _ _
+    · split at hh
+      · simp only [Option.some.injEq] at hh; subst hh; exact dWrapMap_starts _ _
+      · exact ih hh
+
+theorem dHeadZip_starts (O : Oracles) (opts : DeserOpts) (name : Text) (fs : List FieldDecl) :
+    ∀ (i : Nat) (xs : List PyVal) (h : Text), dHeadZip O opts name i fs xs = some h → startsWith name h = true := by
+  induction fs with
+  | nil => intro i xs h hh; simp [dHeadZip] at hh
+  | cons f fs ih =>
+    intro i xs h hh
+    cases xs with
+    | nil => simp [dHeadZip] at hh
+    | cons x xs =>
+      simp only [dHeadZip] at hh
+      split at hh
+      · exact ih _ _ _ hh
+      · simp only [Option.some.injEq] at hh; subst hh
+        simp only [List.append_assoc]
+        exact c18_startsWith_append _ _
+
+theorem dHeadListLike_starts (name : Text) (v : PyVal) (k : List PyVal → Option Text)
+    (hk : ∀ xs h, k xs = some h → startsWith name h = true) :
+    startsWith name (dHeadListLike name v k) = true := by
+  unfold dHeadListLike
+  cases listLike v with
+  | none => exact c18_startsWith_append _ _
+  | some xs =>
+    simp only []
+    cases hh : k xs with
+    | none => exact c18_startsWith_append _ _
+    | some h => exact hk xs h hh
+
+
+/-- the fields whose own scratch `_name` is the only source of the path (no wrapper of their own) -/
+def isBareScalar : FieldDecl → Bool
+  | .number _ | .integer _ | .float _ | .string _ _ _ | .boolean | .anything => true
+  | _ => false
+
+/-- the wrapper guarantee at ANY nesting depth: whatever `deserialize_single_field(f, v, name)`
+    raises begins with `name` — for every declaration (collections of collections, positional
+    items, maps of arrays, inline structures, AnyOf / OneOf / AllOf / NotField, Enum, …), every
+    document value and every scratch state — EXCEPT a class reference given a dict (the nested
+    structure's error passes through unchanged) and the bare scalars (their own `_name`) -/
+theorem dHead_starts (O : Oracles) (opts : DeserOpts) (f : FieldDecl) (name : Text) (v : PyVal)
+    (hs : isBareScalar f = false) (hc : (isClassRef f && isDictVal v) = false) :
+    startsWith name (dHead O opts f name v) = true := by
+  have hhom : ∀ (ok : PyVal → Bool) (g : Text → PyVal → Text) (xs : List PyVal) (h : Text),
+      dHeadHomog ok g name xs = some h → startsWith name h = true := by
+    intro ok g xs h hh
+    simp only [dHeadHomog, Option.map_eq_some_iff] at hh
+    obtain ⟨ix, _, hh⟩ := hh
+    subst hh
+    exact dWrapIdx_starts _ _ _
+  have hpos : ∀ (fs : List FieldDecl) (xs : List PyVal) (h : Text),
+      (if xs.length < fs.length then none else dHeadZip O opts name 0 fs xs) = some h →
+        startsWith name h = true := by
+    intro fs xs h hh
+    split at hh
+    · simp at hh
+    · exact dHeadZip_starts O opts name fs 0 xs h hh
+  cases f <;> simp only [isBareScalar, Bool.true_eq_false] at hs <;> simp only [dHead]
+  case seqAny => exact dHeadListLike_starts _ _ _ (fun _ _ hn => by simp at hn)
+  case setAny => exact dHeadListLike_starts _ _ _ (fun _ _ hn => by simp at hn)
+  case seqOf => exact dHeadListLike_starts _ _ _ (hhom _ _)
+  case setOf => exact dHeadListLike_starts _ _ _ (hhom _ _)
+  case tupleOf => exact dHeadListLike_starts _ _ _ (hhom _ _)
+  case seqPos => exact dHeadListLike_starts _ _ _ (hpos _)
+  case tuplePos => exact dHeadListLike_starts _ _ _ (hpos _)
+  case mapAny => exact c18_startsWith_append _ _
+  case mapOf =>
+    cases v <;> try exact c18_startsWith_append _ _
+    simp only []
+    cases hh : dHeadEntries _ _ _ _ name _ with
+    | none => exact c18_startsWith_self _
+    | some h => exact dHeadEntries_starts _ _ _ _ _ _ _ hh
+  case struct c fields defaults =>
+    by_cases hi : c.inline = true
+    · simp only [hi, if_true]; exact c18_startsWith_append _ _
+    · simp only [hi]
+      cases v <;> first
+        | exact c18_startsWith_append _ _
+        | (simp [isClassRef, isDictVal, hi] at hc)
+  case enumLit => exact c18_startsWith_self _
+  case enumCls => exact c18_startsWith_self _
+  all_goals exact c18_startsWith_append _ _
+
+/-- a flat declaration is never a class reference -/
+theorem isFlat_not_classRef (f : FieldDecl) (h : isFlatDecl f = true) : isClassRef f = false := by
+  cases f <;> simp_all [isFlatDecl, isClassRef, isScalarDecl]
+
+/-- DESERIALIZATION, every declaration, any depth: every phase-one rejection site is `named` and
+    its text begins with ITS OWN top-level field's name — except exactly the site of the open
+    finding `no-path:nested-structure:deser-classref` (a top-level class reference given a dict),
+    which the model marks `nested` -/
+theorem p1SiteD_names_own_field (O : Oracles) (opts : DeserOpts) (ign : Bool)
+    (scr : List (Option String)) (name : String) (f : FieldDecl) (v : PyVal) (s : P1Site)
+    (h : p1SiteD O opts ign scr name f v = some s)
+    (hx : (isClassRef f && isDictVal v) = false) :
+    s.kind = .named ∧ s.top = name ∧ s.namesOwnField = true := by
+  unfold p1SiteD at h
+  by_cases hf : isFlatDecl f = true
+  · simp only [hf, if_true] at h
+    exact p1_names_own_field O scr name f v s h
+  · simp only [hf] at h
+    cases hd : deser O opts ign f v with
+    | ok y => simp [hd] at h
+    | error e =>
+      simp only [hd] at h
+      rw [hx] at h
+      simp only [Bool.false_eq_true, if_false, Option.some.injEq] at h
+      subst h
+      refine ⟨rfl, rfl, ?_⟩
+      simp only [P1Site.namesOwnField]
+      have hbare : isBareScalar f = false := by
+        cases f <;> simp_all [isBareScalar, isFlatDecl, isScalarDecl, deser]
+      exact dHead_starts O opts f name.toList v hbare hx
+
+/-- … and the excluded site is exactly where the model puts the finding: kind `nested`, no head -/
+theorem p1SiteD_nested_iff (O : Oracles) (opts : DeserOpts) (ign : Bool)
+    (scr : List (Option String)) (name : String) (f : FieldDecl) (v : PyVal) (s : P1Site)
+    (h : p1SiteD O opts ign scr name f v = some s) :
+    s.kind = .nested ↔ (isClassRef f && isDictVal v) = true := by
+  constructor
+  · intro hk
+    cases hx : (isClassRef f && isDictVal v) with
+    | true => rfl
+    | false =>
+      have := (p1SiteD_names_own_field O opts ign scr name f v s h hx).1
+      rw [this] at hk
+      exact absurd hk (by decide)
+  · intro hx
+    unfold p1SiteD at h
+    have hnf : isFlatDecl f = false := by
+      cases hf : isFlatDecl f with
+      | false => rfl
+      | true => simp [isFlat_not_classRef f hf] at hx
+    simp only [hnf, Bool.false_eq_true, if_false] at h
+    cases hd : deser O opts ign f v with
+    | ok y => simp [hd] at h
+    | error e =>
+      simp only [hd] at h
+      rw [hx] at h
+      simp only [if_true, Option.some.injEq] at h
+      subst h
+      rfl
+
+/-- a site exists exactly for the document values `deserialize_single_field` rejects (`deser`,
+    Sem/Deser.lean, for the non-flat declarations; `p1Rejects` for the flat ones) -/
+theorem p1SiteD_isSome (O : Oracles) (opts : DeserOpts) (ign : Bool)
+    (scr : List (Option String)) (name : String) (f : FieldDecl) (v : PyVal) :
+    (p1SiteD O opts ign scr name f v).isSome =
+      (if isFlatDecl f then p1Rejects O f v else !isOk (deser O opts ign f v)) := by
+  unfold p1SiteD
+  cases hf : isFlatDecl f with
+  | true => simp only [if_true]; exact p1Site_isSome O scr name f v
+  | false =>
+    simp only [Bool.false_eq_true, if_false]
+    cases hd : deser O opts ign f v with
+    | ok y => simp [isOk]
+    | error e =>
+      simp only [isOk]
+      cases (isClassRef f && isDictVal v) <;> rfl
+
+/-- every phase-one site of a document, for a class of ANY declarations: it belongs to a declared
+    field and either begins with that field's own name or is the `nested` site of a class reference -/
+theorem p1SitesD_name_fields (O : Oracles) (opts : DeserOpts) (ign : Bool)
+    (scr : List (String × List (Option String))) (doc : List (String × PyVal))
+    (fields : List (String × FieldDecl)) (s : P1Site) (h : s ∈ p1SitesD O opts ign scr doc fields) :
+    ∃ nf ∈ fields, s.top = nf.1 ∧
+      ((s.kind = .named ∧ s.namesOwnField = true) ∨ (s.kind = .nested ∧ isClassRef nf.2 = true)) := by
+  simp only [p1SitesD, List.mem_filterMap] at h
+  obtain ⟨nf, hnf, hs⟩ := h
+  refine ⟨nf, hnf, ?_⟩
+  cases hl : lookup nf.1 doc with
+  | none => simp [hl] at hs
+  | some v =>
+    simp only [hl] at hs
+    split at hs
+    · simp at hs
+    · cases hx : (isClassRef nf.2 && isDictVal v) with
+      | false =>
+        have := p1SiteD_names_own_field O opts ign _ nf.1 nf.2 v s hs hx
+        exact ⟨this.2.1, Or.inl ⟨this.1, this.2.2⟩⟩
+      | true =>
+        have hk := (p1SiteD_nested_iff O opts ign _ nf.1 nf.2 v s hs).2 hx
+        simp only [Bool.and_eq_true] at hx
+        refine ⟨?_, Or.inr ⟨hk, hx.1⟩⟩
+        unfold p1SiteD at hs
+        have hnf' : isFlatDecl nf.2 = false := by
+          cases hf : isFlatDecl nf.2 with
+          | false => rfl
+          | true => simp [isFlat_not_classRef nf.2 hf] at hx
+        simp only [hnf', Bool.false_eq_true, if_false] at hs
+        cases hd : deser O opts ign nf.2 v with
+        | ok y => simp [hd] at hs
+        | error e =>
+          simp only [hd] at hs
+          split at hs <;> (simp only [Option.some.injEq] at hs; subst hs; rfl)
+
+/-- … in particular: a class without class-reference fields (collections at any depth, inline
+    structures, multi-field wrappers, …) has every phase-one rejection named by its own field -/
+theorem p1SitesD_all_named (O : Oracles) (opts : DeserOpts) (ign : Bool)
+    (scr : List (String × List (Option String))) (doc : List (String × PyVal))
+    (fields : List (String × FieldDecl)) (hno : ∀ nf ∈ fields, isClassRef nf.2 = false)
+    (s : P1Site) (h : s ∈ p1SitesD O opts ign scr doc fields) :
+    ∃ nf ∈ fields, s.top = nf.1 ∧ s.kind = .named ∧ s.namesOwnField = true := by
+  obtain ⟨nf, hnf, htop, hk⟩ := p1SitesD_name_fields O opts ign scr doc fields s h
+  refine ⟨nf, hnf, htop, ?_⟩
+  cases hk with
+  | inl hk => exact hk
+  | inr hk => rw [hno nf hnf] at hk; exact absurd hk.2 (by decide)
+
+/-! ### the path through nested collections (constructor) -/
+
+theorem scalar_is_path (f : FieldDecl) (h : isScalarDecl f = true) : isPathDecl f = true := by
+  cases f <;> simp_all [isScalarDecl, isPathDecl]
+
+theorem all_scalar_is_path (fs : List FieldDecl) (h : fs.all isScalarDecl = true) : allPathDecl fs = true := by
+  induction fs with
+  | nil => rfl
+  | cons f fs ih =>
+    simp only [List.all_cons, Bool.and_eq_true] at h
+    simp [allPathDecl, scalar_is_path f h.1, ih h.2]
+
+/-- the path model's domain extends the statement's flat domain -/
+theorem flat_is_path (f : FieldDecl) (h : isFlatDecl f = true) : isPathDecl f = true := by
+  cases f <;> simp only [isFlatDecl] at h <;> simp only [isPathDecl]
+  case seqOf => exact scalar_is_path _ h
+  case setOf => exact scalar_is_path _ h
+  case tupleOf => exact scalar_is_path _ h
+  case seqPos => exact all_scalar_is_path _ h
+  case tuplePos => exact all_scalar_is_path _ h
+  case mapOf =>
+    simp only [Bool.and_eq_true] at h ⊢
+    exact ⟨scalar_is_path _ h.1, scalar_is_path _ h.2⟩
+  all_goals (first | rfl | simp [isScalarDecl] at h)
+
+/-- C18 over the extended domain: collections nested to any depth over scalars and class
+    references (the statement for the constructor, as `Statement` but with `isPathDecl`) -/
+def StatementDeep : Prop :=
+  ∀ (O : Oracles) (T : Texts) (J : Codec) (ff : Bool) (c : ClassOpts)
+    (fields : List (String × FieldDecl)) (kw : List (String × PyVal)),
+    J.word.Sound → (ff = false → J.RoundTrip) → TextsWellFormed T →
+    fields.all (fun nf => isPathDecl nf.2) = true →
+    Reported O T J ff c fields kw
+
+/-- it implies the flat statement (so it is refuted by the same non-word name) … -/
+theorem statementDeep_implies_statement (h : StatementDeep) : Statement := by
+  intro O T J ff c fields kw hW hJ hT hflat
+  refine h O T J ff c fields kw hW hJ hT ?_
+  rw [List.all_eq_true] at hflat ⊢
+  intro nf hnf
+  exact flat_is_path nf.2 (hflat nf hnf)
+
+theorem statementDeep_false : ¬ StatementDeep := fun h => statement_false (statementDeep_implies_statement h)
+
+/-- … and holds under the same single exclusion (names in `[\w.]+`), at ANY nesting depth: every
+    rejection names its top-level field followed by one suffix per level, collect-all reports
+    exactly the invalid supplied fields -/
+theorem statement_deep_partial (O : Oracles) (T : Texts) (J : Codec) (ff : Bool) (c : ClassOpts)
+    (fields : List (String × FieldDecl)) (kw : List (String × PyVal))
+    (hW : J.word.Sound) (hJ : ff = false → J.RoundTrip) (hT : TextsWellFormed T)
+    (_hp : fields.all (fun nf => isPathDecl nf.2) = true)
+    (hc : identOk J.word c.name.toList = true)
+    (hn : ∀ nf ∈ fields, identOk J.word nf.1.toList = true) :
+    Reported O T J ff c fields kw :=
+  statement_partial O T J ff c fields kw hW hJ hT hc hn
+
+/-- one suffix per nesting level (kernel-checked): `aaa_1_1_1` (Array[Array[Array[Integer(max 5)]]]),
+    `mm_value_key` (Map[String, Map[String, Integer]] with an int key inside), `tt_0_1`
+    (Tuple[Array[Integer], Map] positional), `stt_1` (Set[Tuple[Integer]]: the Set adds nothing),
+    `ai_1` (Array[Inner] given a dict: the class reference itself, `Expected …; Got …`) -/
+theorem deep_path_examples :
+    let O : Oracles := exOracles
+    let int5 : FieldDecl := .integer { max := some (Q.ofInt 5) }
+    let arr (f : FieldDecl) : FieldDecl := .seqOf .list f {}
+    let str : FieldDecl := .string none none none
+    let inner : FieldDecl := .struct { name := "Inner", required := [], accepts := ["Inner"] } [("x", .integer {})] []
+    ((locate O (arr (arr (arr int5))) (.list [.list [.list [.int 1]], .list [.list [.int 2], .list [.int 3, .int 9]]])).suffix.text
+        = "_1_1_1".toList) ∧
+    ((locate O (.mapOf str (.mapOf str (.integer {}) {}) {})
+        (.dict [(.str "a", .dict [(.int 1, .int 2)])])).suffix.text = "_value_key".toList) ∧
+    ((locate O (.tuplePos [arr (.integer {}), .mapOf str (.integer {}) {}] false)
+        (.tuple [.list [.int 1, .str "x"], .dict []])).suffix.text = "_0_1".toList) ∧
+    ((locate O (.setOf false (.tupleOf (.integer {}) false) {})
+        (.set false [.tuple [.int 1], .tuple [.int 2, .str "x"]])).suffix.text = "_1".toList) ∧
+    (locate O (arr inner) (.list [.inst "Inner" [], .dict []]) = ⟨[.idx 1], .gotLast, none⟩) := by
+  decide
+
+/-- the same positions through deserialization (heads every message must begin with), the
+    positional and Map wrappers, and the site of the finding: a top-level class reference given a
+    dict is `nested` (no head); given a non-dict, and inside a collection, it is named -/
+theorem deep_deser_head_examples :
+    let O : Oracles := exOracles
+    let opts : DeserOpts := {}
+    let arr (f : FieldDecl) : FieldDecl := .seqOf .list f {}
+    let str : FieldDecl := .string none none none
+    let inner : FieldDecl := .struct { name := "Inner", required := [], accepts := ["Inner"] } [("x", .integer {})] []
+    let badInner : PyVal := .dict [(.str "x", .str "a")]
+    dHead O opts (arr (arr (.integer {}))) "aa".toList (.list [.list [.int 1], .list [.int 2, .str "x"]])
+      = "aa_1_1".toList ∧
+    dHead O opts (.tuplePos [arr (.integer {}), str] false) "t".toList (.list [.list [.str "x"], .str "s"])
+      = "t_0: t_0".toList ∧
+    dHead O opts (.mapOf str (arr (.integer {})) {}) "ma".toList (.dict [(.str "a", .list [.int 1, .str "x"])])
+      = "ma_1".toList ∧
+    dHead O opts (arr inner) "arr".toList (.list [.dict [(.str "x", .int 1)], badInner]) = "arr_1".toList ∧
+    p1SiteD O opts false [] "inner" inner badInner = some ⟨"inner", .nested, none, .typeErr⟩ ∧
+    p1SiteD O opts false [] "inner" inner (.int 5) =
+      some ⟨"inner", .named, some "inner: Expected a dictionary; Got ".toList, .typeErr⟩ ∧
+    p1SiteD O opts false [] "arr" (arr inner) (.list [badInner]) =
+      some ⟨"arr", .named, some "arr_0".toList, .valueErr⟩ ∧
+    deserInvalid O opts false [("inner", badInner), ("arr", .list [badInner])]
+      [("inner", inner), ("arr", arr inner)] = ["inner", "arr"] := by
+  decide
+
+/-! ### soundness of the path: the suffix chain of every rejection leads to a rejected position,
+    at any nesting depth (mutual structural induction over the declaration tree) -/
+
+/-- `Reaches f v p g w`: following the suffix chain `p` from the value `v` of declaration `f`
+    (element `i` for `_<i>`, some entry's key / value for `_key` / `_value`, some element of a Set
+    for nothing) leads to the value `w` at declaration `g` -/
+inductive Reaches : FieldDecl → PyVal → SufPath → FieldDecl → PyVal → Prop
+  | here (f : FieldDecl) (v : PyVal) : Reaches f v [] f v
+  | seqOf {k : SeqKind} {item : FieldDecl} {sz : SizeOpts} {v : PyVal} {xs : List PyVal} {i : Nat}
+      {x : PyVal} {p : SufPath} {g : FieldDecl} {w : PyVal} :
+      seqElems k v = some xs → xs[i]? = some x → Reaches item x p g w →
+      Reaches (.seqOf k item sz) v (.idx i :: p) g w
+  | seqPos {k : SeqKind} {fs : List FieldDecl} {addl : Bool} {sz : SizeOpts} {v : PyVal}
+      {xs : List PyVal} {i : Nat} {f : FieldDecl} {x : PyVal} {p : SufPath} {g : FieldDecl} {w : PyVal} :
+      seqElems k v = some xs → fs[i]? = some f → xs[i]? = some x → Reaches f x p g w →
+      Reaches (.seqPos k fs addl sz) v (.idx i :: p) g w
+  | tupleOf {item : FieldDecl} {uniq : Bool} {xs : List PyVal} {i : Nat}
+      {x : PyVal} {p : SufPath} {g : FieldDecl} {w : PyVal} :
+      xs[i]? = some x → Reaches item x p g w →
+      Reaches (.tupleOf item uniq) (.tuple xs) (.idx i :: p) g w
+  | tuplePos {fs : List FieldDecl} {uniq : Bool} {xs : List PyVal} {i : Nat} {f : FieldDecl}
+      {x : PyVal} {p : SufPath} {g : FieldDecl} {w : PyVal} :
+      fs[i]? = some f → xs[i]? = some x → Reaches f x p g w →
+      Reaches (.tuplePos fs uniq) (.tuple xs) (.idx i :: p) g w
+  | setOf {imm : Bool} {item : FieldDecl} {sz : SizeOpts} {fr : Bool} {xs : List PyVal}
+      {x : PyVal} {p : SufPath} {g : FieldDecl} {w : PyVal} :
+      x ∈ xs → Reaches item x p g w → Reaches (.setOf imm item sz) (.set fr xs) p g w
+  | mapKey {kf vf : FieldDecl} {sz : SizeOpts} {kvs : List (PyVal × PyVal)} {k x : PyVal}
+      {p : SufPath} {g : FieldDecl} {w : PyVal} :
+      (k, x) ∈ kvs → Reaches kf k p g w → Reaches (.mapOf kf vf sz) (.dict kvs) (.key :: p) g w
+  | mapVal {kf vf : FieldDecl} {sz : SizeOpts} {kvs : List (PyVal × PyVal)} {k x : PyVal}
+      {p : SufPath} {g : FieldDecl} {w : PyVal} :
+      (k, x) ∈ kvs → Reaches vf x p g w → Reaches (.mapOf kf vf sz) (.dict kvs) (.val :: p) g w
+
+theorem firstBad_spec (O : Oracles) (f : FieldDecl) : ∀ (xs : List PyVal) (n i : Nat) (x : PyVal),
+    firstBad O f n xs = some (i, x) →
+      ∃ j, i = n + j ∧ xs[j]? = some x ∧ isOk (validate O f x) = false := by
+  intro xs
+  induction xs with
+  | nil => intro n i x h; simp [firstBad] at h
+  | cons y ys ih =>
+    intro n i x h
+    simp only [firstBad] at h
+    split at h
+    · obtain ⟨j, hj, hx, hb⟩ := ih (n + 1) i x h
+      exact ⟨j + 1, by omega, by simpa using hx, hb⟩
+    · rename_i hy
+      simp only [Option.some.injEq, Prod.mk.injEq] at h
+      obtain ⟨h1, h2⟩ := h
+      subst h1; subst h2
+      exact ⟨0, rfl, rfl, by simpa using hy⟩
+
+theorem badOf_spec (O : Oracles) (f : FieldDecl) (loc : PyVal → Loc) (xs : List PyVal) (l : Loc)
+    (h : badOf O f loc xs = some l) :
+    ∃ i x, xs[i]? = some x ∧ isOk (validate O f x) = false ∧ l = withSuffix (.idx i) (loc x) := by
+  simp only [badOf, Option.map_eq_some_iff] at h
+  obtain ⟨⟨i, x⟩, hfb, hl⟩ := h
+  obtain ⟨j, hj, hx, hb⟩ := firstBad_spec O f xs 0 i x hfb
+  refine ⟨i, x, ?_, hb, hl.symm⟩
+  have : i = j := by omega
+  rw [this]; exact hx
+
+theorem locSeqLike_cases (xs? : Option (List PyVal)) (uniq : Bool) (sz : SizeOpts)
+    (pre : List PyVal → Bool) (bad : List PyVal → Option Loc) :
+    (locSeqLike xs? uniq sz pre bad).suffix = [] ∨
+      ∃ xs l, xs? = some xs ∧ bad xs = some l ∧ locSeqLike xs? uniq sz pre bad = l := by
+  unfold locSeqLike
+  cases xs? with
+  | none => left; rfl
+  | some xs =>
+    simp only []
+    split
+    · left; rfl
+    · split
+      · left; rfl
+      · split
+        · left; rfl
+        · cases hb : bad xs with
+          | none => left; rfl
+          | some l => right; exact ⟨xs, l, rfl, hb, rfl⟩
+
+theorem firstBadEntry_spec (O : Oracles) (kf vf : FieldDecl) (lk lv : PyVal → Loc) :
+    ∀ (kvs : List (PyVal × PyVal)) (l : Loc), firstBadEntry O kf vf lk lv kvs = some l →
+      ∃ k x, (k, x) ∈ kvs ∧
+        ((isOk (validate O kf k) = false ∧ l = withSuffix .key (lk k)) ∨
+         (isOk (validate O vf x) = false ∧ l = withSuffix .val (lv x))) := by
+  intro kvs
+  induction kvs with
+  | nil => intro l h; simp [firstBadEntry] at h
+  | cons kv rest ih =>
+    intro l h
+    obtain ⟨k, x⟩ := kv
+    simp only [firstBadEntry] at h
+    split at h
+    · rename_i hk
+      simp only [Option.some.injEq] at h
+      exact ⟨k, x, List.mem_cons_self, Or.inl ⟨by simpa using hk, h.symm⟩⟩
+    · split at h
+      · rename_i hx
+        simp only [Option.some.injEq] at h
+        exact ⟨k, x, List.mem_cons_self, Or.inr ⟨by simpa using hx, h.symm⟩⟩
+      · obtain ⟨k', x', hm, hh⟩ := ih l h
+        exact ⟨k', x', List.mem_cons_of_mem _ hm, hh⟩
+
+theorem locSet_cases (O : Oracles) (item : FieldDecl) (loc : PyVal → Loc) (sz : SizeOpts) (v : PyVal) :
+    (locSet O (some (item, loc)) sz v).suffix = [] ∨
+      ∃ fr xs x, v = .set fr xs ∧ x ∈ xs ∧ isOk (validate O item x) = false ∧
+        locSet O (some (item, loc)) sz v = loc x := by
+  unfold locSet
+  cases v <;> try (left; rfl)
+  rename_i fr xs
+  simp only []
+  split
+  · left; rfl
+  · simp only [Option.bind_some]
+    cases hfb : firstBad O item 0 xs with
+    | none => left; rfl
+    | some ix =>
+      obtain ⟨i, x⟩ := ix
+      obtain ⟨j, _, hx, hb⟩ := firstBad_spec O item xs 0 i x hfb
+      right
+      refine ⟨fr, xs, x, rfl, List.mem_of_getElem? hx, hb, ?_⟩
+      simp
+
+theorem locMap_cases (O : Oracles) (g : List (PyVal × PyVal) → Option Loc) (sz : SizeOpts) (v : PyVal) :
+    (locMap O (some g) sz v).suffix = [] ∨
+      ∃ kvs l, v = .dict kvs ∧ g kvs = some l ∧ locMap O (some g) sz v = l := by
+  unfold locMap
+  cases v <;> try (left; rfl)
+  rename_i kvs
+  simp only []
+  split
+  · left; rfl
+  · simp only [Option.bind_some]
+    cases hg : g kvs with
+    | none => left; rfl
+    | some l => right; exact ⟨kvs, l, rfl, hg, rfl⟩
+
+
+/-- the conclusion of `locate_sound` -/
+def PointsAtRejection (O : Oracles) (f : FieldDecl) (v : PyVal) (p : SufPath) : Prop :=
+  ∃ g w, Reaches f v p g w ∧ isOk (validate O g w) = false
+
+theorem points_here (O : Oracles) (f : FieldDecl) (v : PyVal) (p : SufPath)
+    (h : isOk (validate O f v) = false) (hp : p = []) : PointsAtRejection O f v p :=
+  ⟨f, v, hp ▸ Reaches.here f v, h⟩
+
+mutual
+/-- SOUNDNESS OF THE PATH, every declaration, any depth: when `validate` rejects `v`, the suffix
+    chain computed by `locate` leads — element by element, key / value by key / value — to a
+    position that exists in `v` and whose value is rejected by the declaration at that position -/
+theorem locate_sound (O : Oracles) : ∀ (f : FieldDecl) (v : PyVal),
+    isOk (validate O f v) = false → PointsAtRejection O f v (locate O f v).suffix
+  | .number o, v, h => points_here O _ v _ h (by simp only [locate, locScalar])
+  | .integer o, v, h => points_here O _ v _ h (by simp only [locate, locScalar]; cases v <;> rfl)
+  | .float o, v, h => points_here O _ v _ h (by simp only [locate, locScalar]; cases v <;> rfl)
+  | .string a b c, v, h => points_here O _ v _ h (by simp only [locate, locScalar])
+  | .boolean, v, h => points_here O _ v _ h (by simp only [locate, locScalar])
+  | .enumLit vs, v, h => points_here O _ v _ h (by simp only [locate, locScalar])
+  | .enumCls c ns, v, h => points_here O _ v _ h (by simp only [locate, locScalar])
+  | .seqAny k sz, v, h => by
+    refine points_here O _ v _ h ?_
+    simp only [locate]
+    cases locSeqLike_cases (seqElems k v) sz.uniq sz (fun _ => true) (fun _ => none) with
+    | inl h0 => exact h0
+    | inr h1 => obtain ⟨_, _, _, hb, _⟩ := h1; simp at hb
+  | .seqOf k item sz, v, h => by
+    simp only [locate]
+    cases locSeqLike_cases (seqElems k v) sz.uniq sz (fun _ => true) (badOf O item (locate O item)) with
+    | inl h0 => exact points_here O _ v _ h h0
+    | inr h1 =>
+      obtain ⟨xs, l, hxs, hb, hl⟩ := h1
+      obtain ⟨i, x, hx, hbad, hl'⟩ := badOf_spec O item _ xs l hb
+      obtain ⟨g, w, hr, hw⟩ := locate_sound O item x hbad
+      rw [hl, hl']
+      exact ⟨g, w, Reaches.seqOf hxs hx hr, hw⟩
+  | .seqPos k fs addl sz, v, h => by
+    simp only [locate]
+    cases locSeqLike_cases (seqElems k v) sz.uniq sz
+        (fun xs => decide (fs.length ≤ xs.length) && (addl || decide (xs.length ≤ fs.length)))
+        (locateZip O 0 fs) with
+    | inl h0 => exact points_here O _ v _ h h0
+    | inr h1 =>
+      obtain ⟨xs, l, hxs, hb, hl⟩ := h1
+      obtain ⟨j, f, x, p, g, w, hf, hx, hp, hr, hw⟩ := locateZip_sound O fs xs 0 l hb
+      rw [hl, hp]
+      simp only [Nat.zero_add]
+      exact ⟨g, w, Reaches.seqPos hxs hf hx hr, hw⟩
+  | .setAny imm sz, v, h => by
+    refine points_here O _ v _ h ?_
+    simp only [locate, locSet]
+    cases v <;> try rfl
+    simp only []
+    split <;> rfl
+  | .setOf imm item sz, v, h => by
+    simp only [locate]
+    cases locSet_cases O item (locate O item) sz v with
+    | inl h0 => exact points_here O _ v _ h h0
+    | inr h1 =>
+      obtain ⟨fr, xs, x, hv, hx, hbad, hl⟩ := h1
+      obtain ⟨g, w, hr, hw⟩ := locate_sound O item x hbad
+      rw [hl, hv]
+      exact ⟨g, w, Reaches.setOf hx hr, hw⟩
+  | .tupleOf item uniq, v, h => by
+    simp only [locate]
+    cases locSeqLike_cases (tupleElems v) uniq {} (fun _ => true) (badOf O item (locate O item)) with
+    | inl h0 => exact points_here O _ v _ h h0
+    | inr h1 =>
+      obtain ⟨xs, l, hxs, hb, hl⟩ := h1
+      obtain ⟨i, x, hx, hbad, hl'⟩ := badOf_spec O item _ xs l hb
+      obtain ⟨g, w, hr, hw⟩ := locate_sound O item x hbad
+      rw [hl, hl']
+      have hv : v = .tuple xs := by
+        cases v <;> simp [tupleElems] at hxs
+        rw [hxs]
+      rw [hv]
+      exact ⟨g, w, Reaches.tupleOf hx hr, hw⟩
+  | .tuplePos fs uniq, v, h => by
+    simp only [locate]
+    cases locSeqLike_cases (tupleElems v) uniq {} (fun xs => fs.length == xs.length) (locateZip O 0 fs) with
+    | inl h0 => exact points_here O _ v _ h h0
+    | inr h1 =>
+      obtain ⟨xs, l, hxs, hb, hl⟩ := h1
+      obtain ⟨j, f, x, p, g, w, hf, hx, hp, hr, hw⟩ := locateZip_sound O fs xs 0 l hb
+      rw [hl, hp]
+      simp only [Nat.zero_add]
+      have hv : v = .tuple xs := by
+        cases v <;> simp [tupleElems] at hxs
+        rw [hxs]
+      rw [hv]
+      exact ⟨g, w, Reaches.tuplePos hf hx hr, hw⟩
+  | .mapAny sz, v, h => by
+    refine points_here O _ v _ h ?_
+    simp only [locate, locMap]
+    cases v <;> try rfl
+    simp only []
+    split <;> rfl
+  | .mapOf kf vf sz, v, h => by
+    simp only [locate]
+    cases locMap_cases O (firstBadEntry O kf vf (locate O kf) (locate O vf)) sz v with
+    | inl h0 => exact points_here O _ v _ h h0
+    | inr h1 =>
+      obtain ⟨kvs, l, hv, hg, hl⟩ := h1
+      obtain ⟨k, x, hm, hh⟩ := firstBadEntry_spec O kf vf _ _ kvs l hg
+      rw [hl, hv]
+      cases hh with
+      | inl hk =>
+        obtain ⟨g, w, hr, hw⟩ := locate_sound O kf k hk.1
+        rw [hk.2]
+        exact ⟨g, w, Reaches.mapKey hm hr, hw⟩
+      | inr hx =>
+        obtain ⟨g, w, hr, hw⟩ := locate_sound O vf x hx.1
+        rw [hx.2]
+        exact ⟨g, w, Reaches.mapVal hm hr, hw⟩
+  | .struct c fields defaults, v, h => points_here O _ v _ h (by simp only [locate])
+  | .anyOf fs, v, h => points_here O _ v _ h (by simp only [locate])
+  | .oneOf fs, v, h => points_here O _ v _ h (by simp only [locate])
+  | .allOf fs, v, h => points_here O _ v _ h (by simp only [locate])
+  | .notF fs, v, h => points_here O _ v _ h (by simp only [locate])
+  | .noneF, v, h => points_here O _ v _ h (by simp only [locate])
+  | .anything, v, h => points_here O _ v _ h (by simp only [locate])
+
+theorem locateZip_sound (O : Oracles) : ∀ (fs : List FieldDecl) (xs : List PyVal) (n : Nat) (l : Loc),
+    locateZip O n fs xs = some l →
+      ∃ (j : Nat) (f : FieldDecl) (x : PyVal) (p : SufPath) (g : FieldDecl) (w : PyVal),
+        fs[j]? = some f ∧ xs[j]? = some x ∧ l.suffix = .idx (n + j) :: p ∧ Reaches f x p g w ∧
+          isOk (validate O g w) = false
+  | [], xs, n, l, h => by simp [locateZip] at h
+  | _ :: _, [], n, l, h => by simp [locateZip] at h
+  | f :: fs, x :: xs, n, l, h => by
+    simp only [locateZip] at h
+    split at h
+    · obtain ⟨j, f', x', p, g, w, hf, hx, hp, hr, hw⟩ := locateZip_sound O fs xs (n + 1) l h
+      exact ⟨j + 1, f', x', p, g, w, by simpa using hf, by simpa using hx,
+        by rw [hp]; congr 2; omega, hr, hw⟩
+    · rename_i hbad
+      simp only [Option.some.injEq] at h
+      obtain ⟨g, w, hr, hw⟩ := locate_sound O f x (by simpa using hbad)
+      exact ⟨0, f, x, _, g, w, rfl, rfl, by rw [← h]; rfl, hr, hw⟩
+end
+
+
+/-- … for every message of `cls(**kw)`: the path `<top><suffix chain>` of every rejection site
+    names a declared field that was supplied, and its suffix chain leads to a rejected position
+    inside the supplied value (every class, every declaration at any depth, both modes) -/
+theorem sites_point_at_rejections (O : Oracles) (c : ClassOpts) (kw : List (String × PyVal))
+    (fields : List (String × FieldDecl)) (s : Site) (hs : s ∈ sites O c kw fields) :
+    ∃ nf ∈ fields, ∃ v, s.top = nf.1 ∧ argFor c [] kw nf.1 = some v ∧
+      PointsAtRejection O nf.2 v s.loc.suffix := by
+  induction fields with
+  | nil => simp [sites] at hs
+  | cons nf rest ih =>
+    obtain ⟨name, f⟩ := nf
+    simp only [sites] at hs
+    cases ha : argFor c [] kw name with
+    | none =>
+      rw [ha] at hs
+      obtain ⟨x, hx, h⟩ := ih hs
+      exact ⟨x, List.mem_cons_of_mem _ hx, h⟩
+    | some v =>
+      rw [ha] at hs
+      dsimp only at hs
+      cases hv : validate O f v with
+      | ok y =>
+        rw [hv] at hs
+        obtain ⟨x, hx, h⟩ := ih hs
+        exact ⟨x, List.mem_cons_of_mem _ hx, h⟩
+      | error e =>
+        rw [hv] at hs
+        cases hs with
+        | head =>
+          exact ⟨(name, f), List.mem_cons_self, v, rfl, ha,
+            locate_sound O f v (by rw [hv]; rfl)⟩
+        | tail _ h' =>
+          obtain ⟨x, hx, h⟩ := ih h'
+          exact ⟨x, List.mem_cons_of_mem _ hx, h⟩
+
+/-- non-vacuity: `Array[Array[Array[Integer(maximum=5)]]]` given `[[[1]], [[2], [3, 9]]]`: the
+    chain `_1_1_1` reaches the element `9` at the innermost `Integer`, which rejects it -/
+theorem locate_sound_example :
+    let int5 : FieldDecl := .integer { max := some (Q.ofInt 5) }
+    let arr (f : FieldDecl) : FieldDecl := .seqOf .list f {}
+    let v : PyVal := .list [.list [.list [.int 1]], .list [.list [.int 2], .list [.int 3, .int 9]]]
+    (locate exOracles (arr (arr (arr int5))) v).suffix = [.idx 1, .idx 1, .idx 1] ∧
+    Reaches (arr (arr (arr int5))) v [.idx 1, .idx 1, .idx 1] int5 (.int 9) ∧
+    isOk (validate exOracles int5 (.int 9)) = false := by
+  refine ⟨by decide, ?_, by decide⟩
+  exact Reaches.seqOf (xs := [.list [.list [.int 1]], .list [.list [.int 2], .list [.int 3, .int 9]]]) rfl rfl
+    (Reaches.seqOf (xs := [.list [.int 2], .list [.int 3, .int 9]]) rfl rfl
+      (Reaches.seqOf (xs := [.int 3, .int 9]) rfl rfl (Reaches.here _ _)))
+
+
+
+/-! ### class names typedpy itself produces are in `[\w.]+` -/
+
+theorem all_alnum_fieldChars (W : Word) (hW : W.Sound) (t : Text) (h : t.all Char.isAlphanum = true) :
+    t.all (isFieldChar W) = true := by
+  induction t with
+  | nil => rfl
+  | cons c cs ih =>
+    simp only [List.all_cons, Bool.and_eq_true] at h ⊢
+    exact ⟨isFieldChar_ascii W hW c h.1, ih h.2⟩
+
+theorem derive_pre_alnum (d : Derive) : d.pre.all Char.isAlphanum = true ∧ d.pre ≠ [] := by
+  cases d <;> exact ⟨by decide, by decide⟩
+
+/-- the names typedpy gives the classes it derives (`Partial[Foo]` → `PartialFoo`, `AllFieldsRequired`,
+    `Extend`, `Omit`, `Pick`) from a class whose name is in `[\w.]+` are in `[\w.]+`; with an explicit
+    name, exactly when that name is -/
+theorem derived_name_identOk (W : Word) (hW : W.Sound) (d : Derive) (explicit : Option Text) (base : Text)
+    (hb : identOk W base = true) (he : ∀ n, explicit = some n → identOk W n = true) :
+    identOk W (derivedName d explicit base) = true := by
+  cases explicit with
+  | some n => exact he n rfl
+  | none =>
+    simp only [derivedName]
+    obtain ⟨_, hba⟩ := (identOk_iff W base).1 hb
+    obtain ⟨hpa, hpn⟩ := derive_pre_alnum d
+    rw [identOk_iff]
+    refine ⟨?_, ?_⟩
+    · cases hp : d.pre with
+      | nil => exact absurd hp hpn
+      | cons c cs => simp
+    · simp only [List.all_append, all_alnum_fieldChars W hW d.pre hpa, hba, Bool.and_true]
+
+/-- … so every rejection by a class derived (without explicit name) from a word-named class with
+    word-named fields keeps its field, in both modes (C18 for `Partial[Foo]`, `AllFieldsRequired[Foo]`,
+    `Extend[Foo]`, `Omit[Foo, …]`, `Pick[Foo, …]`) -/
+theorem derived_class_statement (O : Oracles) (T : Texts) (J : Codec) (ff : Bool) (c : ClassOpts)
+    (d : Derive) (base : Text)
+    (fields : List (String × FieldDecl)) (kw : List (String × PyVal))
+    (hW : J.word.Sound) (hJ : ff = false → J.RoundTrip) (hT : TextsWellFormed T)
+    (hname : c.name.toList = derivedName d none base) (hb : identOk J.word base = true)
+    (hn : ∀ nf ∈ fields, identOk J.word nf.1.toList = true) :
+    Reported O T J ff c fields kw :=
+  statement_partial O T J ff c fields kw hW hJ hT
+    (hname ▸ derived_name_identOk J.word hW d none base hb (fun _ h => nomatch h)) hn
+
+/-- a derived class named after the EXPRESSION that creates it (`Partial[Person]`, as a seeded change
+    did) loses every field: `[` is outside `[\w.]` -/
+theorem bracket_class_name_loses_field :
+    (parseMsg asciiWord "Partial[Person].age: Got -1; Expected a positive number".toList).field = none ∧
+    (parseMsg asciiWord "PartialPerson.age: Got -1; Expected a positive number".toList).field
+      = some "PartialPerson.age".toList ∧
+    derivedName .partialOf none "Person".toList = "PartialPerson".toList ∧
+    derivedName .allRequired none "Person".toList = "AllFieldsRequiredPerson".toList ∧
+    derivedName .omit (some "Slim".toList) "Person".toList = "Slim".toList := by
+  decide
+
 
 end Typedpy.C18
